@@ -12,3 +12,5 @@ cargo build --release --offline -p dvx
 cargo build --profile rel --offline -p dvx
 RUSTFLAGS='--cfg dashu_verif --cfg force_bits="32"' CARGO_TARGET_DIR="$PWD/target-w32" cargo build --release --offline -p dvx
 CARGO_TARGET_DIR="$PWD/target-nostd" cargo build --release --offline -p dvx --no-default-features
+# C17: pre-build the Miri replayer (its sysroot and the dashu-int build for Miri)
+MIRIFLAGS="-Zmiri-disable-isolation" CARGO_TARGET_DIR="$PWD/target-miri" cargo +nightly miri run --offline -q -p dvm -- /dev/null || echo "note: Miri pre-build failed (C17 will report it as a machinery problem)"
